@@ -24,5 +24,7 @@ Definition base_caller (fs : list frame) : bytes := base_caller_from [] fs.
 (* snapshotPath with the -trimpath switch: under -trimpath a relative Dir is NOT joined with the
    caller's directory (it resolves against the working directory) *)
 Definition snapshot_path_gen (trim : bool) (c : config) (caller test : bytes) (standalone : bool) : bytes :=
-  let dir := if negb (is_abs (c_dir c)) && negb trim then join2 (dirname caller) (c_dir c) else c_dir c in
-  join2 dir (construct_filename c caller test standalone).
+  let caller' := if standalone then esc_pct caller else caller in
+  let d := if standalone then esc_pct (c_dir c) else c_dir c in
+  let dir := if negb (is_abs d) && negb trim then join2 (dirname caller') d else d in
+  join2 dir (construct_filename c caller' test standalone).
